@@ -37,15 +37,6 @@ def canonical(fine, meta):
 def numbering_oracle(ctx, case, steps, ctor_err):
     if steps is None:
         return
-    if case.get('caller_names') and steps and steps[0]['result'] == 'ok':
-        # the base graph was handed over as a graph object: the coarse graph of the first step is THAT graph — the same
-        # keys under the same names (whatever order its nodes were put in)
-        got = {str(k): d.get('fragname') for k, d in steps[0]['meta_graph'].nodes(data=True)}
-        if got != case['caller_names']:
-            diff = sorted(k for k in set(got) | set(case['caller_names']) if got.get(k) != case['caller_names'].get(k))
-            ctx.fail(suites.slim(case), f'from_graph: the coarse graph of the result is not the graph that was handed over '
-                                        f'(nodes {diff[:5]}: {[got.get(k) for k in diff[:5]]} instead of '
-                                        f'{[case["caller_names"].get(k) for k in diff[:5]]})')
     for st in steps:
         if st['result'] != 'ok':
             continue
